@@ -102,6 +102,6 @@ Fixpoint fresh_rotations (cur : N) (ops : list wop) : Prop :=
   end.
 
 Definition is_raft_op (o : wop) : bool :=
-  match o with WAppend _ _ _ | WSetHs _ _ | WCompact _ _ => true | _ => false end.
+  match o with WAppend _ _ _ | WSetHs _ _ | WCompact _ _ | WReopen _ => true | _ => false end.
 Definition no_raft (ops : list wop) : bool := forallb (fun o => negb (is_raft_op o)) ops.
 
